@@ -6,6 +6,7 @@ import CprocVerif.Props.C04
 import CprocVerif.Props.C05
 import CprocVerif.Props.C06
 import CprocVerif.Props.C07
+import CprocVerif.Props.C08
 import CprocVerif.Props.C09
 import CprocVerif.Props.C13
 import CprocVerif.Props.C14
